@@ -41,6 +41,10 @@ type Conv struct {
 	Aux map[string]string `json:"aux,omitempty"`
 	// Imports of the input file, e.g. `ea "corpus/GRP/pfxea"`
 	Imports []string `json:"imports,omitempty"`
+	// PkgName: the input package must have this name (implies Solo); its directory is n<idx>/<PkgName>
+	PkgName string `json:"pkg_name,omitempty"`
+	// LoadErr: type errors of the emitted code (C01 gate)
+	LoadErr string `json:"load_err,omitempty"`
 	// filled by the builder
 	Group  string `json:"group"`
 	Name   string `json:"name"`   // interface name / variable prefix
@@ -139,6 +143,14 @@ func NewCorpus(root, goverterBin string, convs []*Conv, perGroup int) (*Corpus, 
 					}
 				}
 			}
+			if cv.PkgName != "" {
+				flush()
+				g := fmt.Sprintf("n%03d/%s", gi, cv.PkgName)
+				gi++
+				cv.Group = g
+				c.Groups[g] = []*Conv{cv}
+				continue
+			}
 			if cv.Solo || cv.ExpectFail || len(cv.CLI) > 0 {
 				flush()
 				cur = []*Conv{cv}
@@ -182,7 +194,7 @@ func (e *E) Unwrap() error { return e.Err }
 // Source renders the input file of a group.
 func (c *Corpus) Source(group string) string {
 	var sb strings.Builder
-	fmt.Fprintf(&sb, "package %s\n\n", group)
+	fmt.Fprintf(&sb, "package %s\n\n", filepath.Base(group))
 	convs := c.Groups[group]
 	needPerr := false
 	for _, cv := range convs {
